@@ -167,6 +167,40 @@ Proof.
     lia.
 Qed.
 
+(* the C++ wrapper type_traits::get(int): a negative int is converted to an id above every range *)
+Lemma int_below_word :
+  (Z.of_N g_ValueMax + 2 ^ (Z.of_N g_IntBits - 1) < 2 ^ Z.of_N g_WordBits)%Z /\ (0 < Z.of_N g_IntBits)%Z.
+Proof. vm_compute. split; reflexivity. Qed.
+
+Lemma wrap_refines r t : inv r ->
+  (- 2 ^ (Z.of_N g_IntBits - 1) <= t < 2 ^ (Z.of_N g_IntBits - 1))%Z ->
+  wrap_traits r t = Ok (if (t <? 0)%Z then None else option_map d_info (s_get (abs r) (Z.to_N t))).
+Proof.
+  intros I Ht. unfold wrap_traits. pose proof int_below_word as [IW IP].
+  assert (EW : Z.of_N (2 ^ g_WordBits) = (2 ^ Z.of_N g_WordBits)%Z) by apply N2Z.inj_pow.
+  remember (2 ^ Z.of_N g_WordBits)%Z as W eqn:HW.
+  remember (2 ^ (Z.of_N g_IntBits - 1))%Z as J eqn:HJ.
+  assert (0 < J)%Z by (subst J; apply Z.pow_pos_nonneg; lia).
+  destruct (Z.ltb_spec t 0) as [Hn|Hn].
+  - assert (Em : (t mod W = W + t)%Z).
+    { symmetry. apply Z.mod_unique_pos with (q := (-1)%Z); lia. }
+    rewrite Em. rewrite traits_refines by (assumption || lia). rewrite abs_get.
+    destruct (N.leb_spec (Z.to_N (W + t)) g_ValueMax); [lia|reflexivity].
+  - rewrite Z.mod_small by lia. rewrite traits_refines by (assumption || lia). reflexivity.
+Qed.
+
+(* ... so the wrapper is transparent for every non-negative int and finds nothing for a negative one *)
+Lemma wrap_transparent r t : inv r ->
+  (- 2 ^ (Z.of_N g_IntBits - 1) <= t < 2 ^ (Z.of_N g_IntBits - 1))%Z ->
+  wrap_traits r t = if (t <? 0)%Z then Ok None else type_traits r (Z.to_N t).
+Proof.
+  intros I Ht. rewrite wrap_refines by assumption. destruct (Z.ltb_spec t 0) as [Hn|Hn]; [reflexivity|].
+  symmetry. apply traits_refines; [assumption|].
+  pose proof int_below_word as [IW IP].
+  assert (EW : Z.of_N (2 ^ g_WordBits) = (2 ^ Z.of_N g_WordBits)%Z) by apply N2Z.inj_pow.
+  lia.
+Qed.
+
 Lemma kind_eqb_refl k : kind_eqb k k = true.
 Proof. destruct k; reflexivity. Qed.
 
